@@ -38,6 +38,26 @@ func genC16(seed uint64, tier string) *world.Scenario {
 		total += 1.5 + 14 + float64(256/f.Driver.K+1) + float64(f.Plant.TauMs)/100
 	}
 	sc.Horizon = sec(total + 15)
+	if r.Bool(0.2) {
+		// long analyses: full 256-step drivers and a rotor that coasts for a long time before
+		// the first measurement (analysis of one fan takes ~5-6 virtual minutes)
+		if len(sc.Fans) > 2 {
+			sc.Fans = sc.Fans[:2]
+			sc.Sensors = sc.Sensors[:2]
+			sc.Curves = sc.Curves[:2]
+		}
+		total = 0
+		for i := range sc.Fans {
+			f := &sc.Fans[i]
+			f.Driver.Quant, f.Driver.K = "", 0
+			f.Plant.TauMs = kernel.Pick(r, 300, 12000, 20000)
+			f.Plant.InitRpm = r.Range(1500, 3000)
+			f.Plant.MaxRpm = 3000
+			total += 1.5 + 60 + 257*1.01 + float64(f.Plant.TauMs)/100
+		}
+		sc.Horizon = sec(total + 40)
+		sc.Variant = "long-analysis"
+	}
 	return sc
 }
 
